@@ -910,6 +910,11 @@ func ApplyFunction(env *Zlisp, name string, args []Sexp) (Sexp, error) {
 		if err != nil {
 			return SexpNull, err
 		}
+	case *SexpSentinel:
+		if e != SexpNull {
+			return SexpNull, fmt.Errorf("second argument must be array or list")
+		}
+		// nil is the empty list: no arguments
 	default:
 		return SexpNull, fmt.Errorf("second argument must be array or list")
 	}
@@ -938,6 +943,12 @@ func MapFunction(env *Zlisp, name string, args []Sexp) (Sexp, error) {
 	case *SexpPair:
 		x, err := MapList(env, fun, e)
 		return x, err
+	case *SexpSentinel:
+		if e == SexpNull {
+			// nil is the empty list
+			return SexpNull, nil
+		}
+		return SexpNull, fmt.Errorf("second argument must be array or list; we saw %T / val = %#v", e, e)
 	default:
 		return SexpNull, fmt.Errorf("second argument must be array or list; we saw %T / val = %#v", e, e)
 	}
